@@ -71,9 +71,10 @@ def models(prop, tier):
              what='counterexample generator: heap.py WITHOUT fixes/C03-heap-fixup.diff (only FixDown after '
                   'Swap(i,size)) violates C03.openLeast with 6 members (3 dispatches, 1 completion with randint 1, '
                   '4 dispatches)')
-  m4f = dict(module='HeapBalancer', cfg='HeapBalancer_4f.cfg', coverage=quick, may_be_unused=['LateArrive'],
-             what='up to 4 node objects over 3 endpoints: channel down/up at any time, join / leave / re-join / '
-                  'duplicate join / unknown leave, loads <= 1, exhaustive')
+  m4f = dict(module='HeapBalancer', cfg='HeapBalancer_4f.cfg', coverage=quick,
+             may_be_unused=['LateArrive', 'JoinDup', 'LeaveUnknown'],
+             what='up to 4 node objects over 3 endpoints: channel down/up at any time, join / leave / re-join, '
+                  'loads <= 1, exhaustive')
   m3d = dict(module='HeapBalancer', cfg='HeapBalancer_3d.cfg', coverage=True,
              what='2 endpoints, 3 node objects: removal of idle / loaded / down nodes, re-join while the old node '
                   'drains, timeout then late arrival, channel down/up, loads <= 2, exhaustive')
@@ -99,10 +100,6 @@ def models(prop, tier):
 
 
 # ====================================================================== the driver
-class _Degrade(Exception):
-  pass
-
-
 def _drive(script):
   """Run one script against the real balancer.  Returns dict(cfg, ev, meta[, impl])."""
   loop = common.boot()
@@ -925,16 +922,16 @@ def cases(prop, tier, seed):
     fam = _family_c03()
     out.extend(fam if not quick else fam[::2])
     out.extend(_family_small())
-    n = 900 if quick else 20000
+    n = 900 if quick else 12000
     for i in range(n):
       out.append(_gen_traffic(rng, 'heap' if i % 3 else 'aperture', prop))
   elif prop == 'C04':
     out.extend(_family_small())
-    n = 1100 if quick else 24000
+    n = 1100 if quick else 12000
     for i in range(n):
       out.append(_gen_traffic(rng, 'heap' if i % 3 else 'aperture', prop))
   else:
-    n = 600 if quick else 12000
+    n = 600 if quick else 6000
     for i in range(n):
       out.append(_gen_traffic(rng, 'heap' if i % 2 else 'aperture', prop))
     for i in range(n):
@@ -996,7 +993,10 @@ def witness(prop, t, consumed, clause):
   if consumed < len(ev):
     e = ev[consumed]
     if e['e'] == 'Disp':
-      w['members'] = len(e.get('U', []))
+      u = e.get('U', [])
+      w['members'] = len(u)
+      w['six_plus'] = len(u) >= 6          # the heap-order defect of heap.py needs >= 6 array slots
+      w['chosen_open'] = bool(e.get('st') == 2)
   return w
 
 
@@ -1155,7 +1155,7 @@ def replay_behaviours(prop, tier, seed):
     jobs.append(_counterexample_job())
   if prop in SIM_HEAP:
     cfg, depth = SIM_HEAP[prop]
-    num = 250 if quick else 3000
+    num = 250 if quick else 2500
     r, behs = tlc.simulate_behaviours('HeapBalancer', cfg, num=num, depth=depth, seed=int(seed) + 1, timeout=900)
     if not behs:
       raise RuntimeError('no behaviours from TLC simulate:\n' + r.stdout[-2000:])
@@ -1163,7 +1163,7 @@ def replay_behaviours(prop, tier, seed):
       sc, ex = _heap_script(b)
       jobs.append({'script': sc, 'expect': ex, 'which': 'heap'})
   else:
-    num = 300 if quick else 3000
+    num = 300 if quick else 2500
     r, behs = tlc.simulate_behaviours('LbBase', 'LbBase_sim.cfg', num=num, depth=14, seed=int(seed) + 1, timeout=900)
     if not behs:
       raise RuntimeError('no behaviours from TLC simulate:\n' + r.stdout[-2000:])
